@@ -46,7 +46,7 @@ theorem read_ne_panic (n : Nat) (f : List Bool → Out) (t : Ideal) (p : String)
 
 /-- the specification never panics -/
 theorem spec_ne_panic (op : Op) (t : Ideal) (p : String) : (op.spec t).1 ≠ .panic p := by
-  cases op <;> simp only [Op.spec] <;> (repeat' split) <;>
+  cases op <;> simp only [Op.spec, writeUnary_spec_eq] <;> (repeat' split) <;>
     first
     | apply write_ne_panic
     | apply fail_ne_panic
